@@ -428,3 +428,109 @@ _reg(DecodeProp(
     "every rejected string of the edit-neighbourhood streams at all six decoders: the set of sentinels matching under errors.Is must be a "
     "singleton, equal to the model's error, and a member of the defect classes the specification oracle finds in the string",
     assumptions=["errors.Is semantics of github.com/goark/errs wrapping"]))
+
+
+class C12Prop(DecodeProp):
+    """adds observers on nil / fresh receivers, field resets and huge inputs to the decode streams"""
+
+    def extra_ops(self, tier, rng):
+        from . import vec
+        ops = []
+        for fam in ("Q3", "Q2"):
+            for L in "BTE":
+                for kind in ("nil", "fresh"):
+                    ops.append("%s %s %s" % (fam, L, kind))
+        n = 150 if tier == "quick" else 5000
+        for _ in range(n):
+            L = rng.below(3)
+            v = vec.rand_v3(rng, L)
+            ms = ["Ver"] + [m[0] for m in vec.V3 if m[1] <= L]
+            for name in ms:
+                ops.append("F3 %s %s %s 0" % ("BTE"[L], core.hx(v), name))
+            name = rng.choice(ms)
+            ops.append("F3 %s %s %s %d" % ("BTE"[L], core.hx(v), name, rng.choice([-1, 6, 7, 99])))
+        for _ in range(n):
+            L = rng.below(3)
+            v = vec.rand_v2(rng, L)
+            for m in vec.V2:
+                if m[1] <= L:
+                    ops.append("F2 %s %s %s 0" % ("BTE"[L], core.hx(v), m[0]))
+            ops.append("F2 %s %s %s %d" % ("BTE"[L], core.hx(v), rng.choice([m[0] for m in vec.V2 if m[1] <= L]), rng.choice([-1, 7, 99])))
+        big = 200000 if tier == "quick" else 4000000
+        for ver, head, units in (("3", "CVSS:3.1", ["/", ":", "/AV:N", "/A:", "/:", "AV:N", "\x00"]), ("2", "", ["/", ":", "AV:N/", "A:", "/:", "\xff"])):
+            for u in units:
+                for L in "BTE":
+                    ops.append("BIG %s %s %s %s %d" % (ver, L, core.hx(head), core.hx(u), big if u in ("/", ":") else big // 10))
+        return ops
+
+    def run(self, tier, rng, seed):
+        out = DecodeProp.run(self, tier, rng, seed)
+        ops = self.extra_ops(tier, rng)
+        go, mo = core.run_both(ops)
+        nm = 0
+        viol = 0
+        for op, g, m in zip(ops, go, mo):
+            f = op.split(" ")
+            if g != m:
+                nm += 1
+                if len(out.mismatch_examples) < 10:
+                    out.mismatch_examples.append({"stream": "observers", "op": op, "impl": g, "model": m})
+            d = core.parse_kv(g)
+            msgs = []
+            if g.startswith(("PANIC", "CRASH", "TIMEOUT")):
+                msgs.append("operation did not return normally: " + g[:100])
+            elif f[0] in ("Q3", "Q2"):
+                if d.get("s") != "0000000000000000":
+                    msgs.append("score %s on a %s receiver" % (d.get("s"), f[2]))
+                if d.get("ge") == "-":
+                    msgs.append("GetError() is nil on a %s receiver" % f[2])
+                if d.get("enc", "").endswith("|-"):
+                    msgs.append("Encode() reports no error on a %s receiver" % f[2])
+            elif f[0] in ("F3", "F2") and f[4] == "0" and "f" in d:
+                v = judge.V()
+                if f[0] == "F3":
+                    judge.judge_state_v3(f, d, v)
+                else:
+                    judge.judge_state_v2(f, d, v)
+                msgs.extend(v.by.get("C12", []))
+                # the reset field is of the queried level: the object must be invalid at its own level
+                if f[0] == "F3" and d.get("ge", "").split(",")[-1] == "-":
+                    msgs.append("object with %s reset to its unknown value passes GetError()" % f[3])
+            elif f[0] == "BIG":
+                if d.get("r") not in ("0", "1"):
+                    msgs.append("huge input: outcome %s" % g[:60])
+            for msg in msgs:
+                viol += 1
+                out.violations.append((op, msg, g, ""))
+        out.evaluations += len(ops)
+        out.distinct += len(set(ops))
+        out.mismatches += nm
+        out.stream_info.append({"stream": "observers on nil/fresh receivers, field resets, huge inputs", "ops": len(ops),
+                                "exhaustive": False, "mismatches": nm, "violations": viol})
+        out.samples.extend([{"op": runner._readable(o), "impl": g[:200]} for o, g in list(zip(ops, go))[:: max(1, len(ops) // 4)]][:4])
+        return out
+
+
+from . import judge  # noqa: E402
+
+
+def _c12(tier, rng):
+    heavy = tier == "thorough"
+    yield ("v3 edit neighbourhood + random bytes + separator storms, constructor and nil receivers",
+           S.parser3_ops(rng, 12 if tier == "quick" else 200, heavy, nrandom=5000 if tier == "quick" else 300000), False)
+    yield ("v2 edit neighbourhood + random bytes, constructor and nil receivers",
+           S.parser2_ops(rng, 8 if tier == "quick" else 150, heavy, nrandom=5000 if tier == "quick" else 300000), False)
+
+
+_reg(C12Prop(
+    "C12", ["CvssVerif.Props.C12"],
+    ["CvssVerif.Props.C12.split_nonempty", "CvssVerif.Props.C12.decode3_total", "CvssVerif.Props.C12.decode2_total",
+     "CvssVerif.Props.C12.v3_invalid_scores_zero", "CvssVerif.Props.C12.v3_unknown_is_invalid", "CvssVerif.Props.C12.v3_fresh_invalid",
+     "CvssVerif.Props.C12.v2_invalid_scores_zero", "CvssVerif.Props.C12.v2_unknown_is_invalid"],
+    _c12,
+    "every operation runs under recover in the harness: edit neighbourhoods and random byte strings (incl. NUL, invalid UTF-8) at all six "
+    "decoders through constructor results and nil receivers; all observers on nil and fresh receivers of the six types; every exported "
+    "field of decoded objects reset to its unknown value (and to out-of-range integers); inputs of up to 4M separators",
+    assumptions=["the Go runtime (nil maps, slices) is not modelled: a panic shows up as a PANIC line of the harness",
+                 "IsEmpty() on a nil v2 receiver dereferences nil but is not among the observers the property lists; not called on nil",
+                 "zero-value structs (&Base{}) are not constructor results and are out of scope"]))
